@@ -219,7 +219,9 @@ type c17Seg struct {
 
 func c17Values(c *ctx, r *rng) error {
 	res := c.res
-	lits := []string{"a", " ", "x y", "é", "\t", "\n", "$", "{", "}", "$ {", "price: $5", "a\tb", "✓", "}}", "\n\t"}
+	lits := []string{"a", " ", "x y", "é", "\t", "\n", "$", "{", "}", "$ {", "price: $5", "a\tb", "✓", "}}", "\n\t",
+		// the OTHER quote character inside literal text is a character (used only when it is not the value's delimiter)
+		"it's", "'", "say \"hi\"", "\"", "''", "a'b'c"}
 	codes := []string{"x", "a + b", " x ", "f(1, 2)", "m['k']", "x +\n y", "x +\ty", "`raw`", "`r\nw`", "`a\tb`", "`}`", "`${`", "\"}\"", "\"{\"", "'}'", "'${'", "\"a\\\"}\"",
 		"'C:\\\\'", "\"\\\\\"", "'a\\\\' + 'b'", "'\\\\\\\\'", "'\\\\\\''", "\"a\\\\\" + x", "'\\\\}'", "`\\`", "`a\\` + `}`", "'\\\\' + \"}\"", "'x\\\\\\\\\\''",
 		"f((1))", "x /* c */", "(x)", "`l1\nl2\nl3` + y", "s + `\t`", "\"é✓\"", "a ? b : c", "xs[1:2]"}
@@ -233,7 +235,11 @@ func c17Values(c *ctx, r *rng) error {
 		lastLit := false
 		for k := 1 + r.n(4); k > 0; k-- {
 			if r.p(40) && !lastLit {
-				segs = append(segs, c17Seg{2, r.pick(lits)})
+				lt := r.pick(lits)
+				if strings.Contains(lt, quote) {
+					continue
+				}
+				segs = append(segs, c17Seg{2, lt})
 				lastLit = true
 			} else {
 				code := r.pick(codes)
